@@ -1026,7 +1026,8 @@ func (g *FunctionGenerator[V]) GenerateFunc(ast parser2.AST, gc GeneratorContext
 		if err != nil {
 			return nil, false, err
 		}
-		op := g.opMap[a.Operator].Impl
+		operator := g.opMap[a.Operator]
+		op := operator.Impl
 		return func(st Stack[V], cs []V) (V, error) {
 			aVal, err := aFunc(st, cs)
 			if err != nil {
@@ -1037,7 +1038,7 @@ func (g *FunctionGenerator[V]) GenerateFunc(ast parser2.AST, gc GeneratorContext
 				return zero, a.EnhanceErrorf(err, "error in operation %v", a.Operator)
 			}
 			return op.Calc(st, aVal, bVal)
-		}, aPure && bPure, nil
+		}, aPure && bPure && operator.IsPure, nil
 	case *parser2.ClosureLiteral:
 		if len(a.OuterIdents) == 0 && !a.Recursive {
 			// not a closure, not recursive, just a pure function
